@@ -747,6 +747,17 @@ pub fn reentrant_programs() -> Vec<String> {
             ));
         }
     }
+    // the same with the objects wrapped in tuples / lists (comparisons recurse into the wrappers)
+    for e in list_effects {
+        for (open, close) in [("(", ",)"), ("[", "]")] {
+            for c in ["l.sort()", "l.contains l[0]", "l.retain l[0]", "l.retain WRAP(mk 1)", "l.contains WRAP(mk 1)", "l == [l[0], l[1], l[2]]", "l.min()", "l.position |x| x == l[1]"] {
+                let c = c.replace("WRAP(mk 1)", &format!("{open}mk(1){close}"));
+                out.push(format!(
+                    "l = []\nmk = |n|\n  n: n\n  @<: |o|\n    {e}\n    self.n < o.n\n  @==: |o|\n    {e}\n    self.n == o.n\n  @display: || 'o{{self.n}}'\nl.push {open}mk(2){close}\nl.push {open}mk(1){close}\nl.push {open}mk(3){close}\ntry\n  r = {c}\n  print r\ncatch err\n  print 'error'\nprint size l\n"
+                ));
+            }
+        }
+    }
     // @display of an element running under the display of its container
     for e in list_effects {
         for c in ["'{l}'", "'{l:?}'", "'{(l, 1)}'", "'{[l]}'", "l.to_string()"] {
